@@ -720,7 +720,7 @@ def tlsl_case(draw):
     shape = draw(st.sampled_from(SHAPES))
     cnt = gen.prod(shape)
     return dict(n=n, shape=shape, pts=draw(kpoints(n, cnt, 0.999)),
-                scales=[draw(gen.scalars_pm(0.2, 5.0)) for _ in range(cnt)],
+                scales=[draw(gen.scalars_any()) for _ in range(cnt)],
                 normals=draw(_normals(n, cnt, 1.8)),
                 fo=draw(st.sampled_from([True, False, None])))
 
